@@ -820,6 +820,23 @@ func ruleOpt(c *Ctx) {
 				}
 			}
 		})
+		// NewOpt may delegate to Update on the fresh cell with its own argument
+		if m == "NewOpt" && !(setV && setU) {
+			for _, ci := range callsTo(fn, "util.Opt.Update") {
+				a := ci.Common().Args
+				if len(a) == 2 && a[1] == ssa.Value(fn.Params[0]) {
+					all := true
+					for _, r := range returnsOf(fn) {
+						if !dominatesInstr(ci, r) || retVal(r, 0) != a[0] {
+							all = false
+						}
+					}
+					if all {
+						setV, setU = true, true
+					}
+				}
+			}
+		}
 		c.check(setV && setU, fname(fn), c.pos(fn.Pos()), fname(fn), "stores the value and raises the flag on every path", fname(fn)+" does not store the value and set `updated` on every path: a setting (or a text / lyric / marker) that is written again with the same value is not emitted again")
 	}
 	if fn := c.fn("util", "Opt.Unwrap"); fn != nil {
